@@ -27,6 +27,17 @@ CHECKS = {
              "assumed within 1e-12 relative (checked on every sampled case, not proved).",
         technique="Lean 4 proof over translator-generated tables + differential correspondence",
         design="§6 C06"),
+    "C12": dict(
+        text="Lean theorems: key tables of every *_from_dict / *_to_dict / __init__ (regenerated from the sources on every run): "
+             "emitted keys accepted and canonical, every constructor parameter written and wired back, alias groups disjoint, "
+             "documented defaults and aliases; generic dictionary reader/writer model with round-trip, re-serialisation, alias "
+             "interchangeability, omitted-key defaults and path theorems. Tie: translator group DictKeys + correspondence "
+             "(model reader/writer vs real readers/writers) + field-by-field SI oracle on the real code through dictionaries, "
+             "JSON text and save/load files (multi-file layouts, external arrays, absolute/relative paths).",
+        note="Lean kernel + {propext, Classical.choice, Quot.sound}; translator; correspondence harness; json / numpy / float repr / "
+             "file system trusted; quantity float token and equation text are tokens carrying their value (C18/C19).",
+        technique="Lean 4 proof over translator-generated key tables + generic field-schema interpreter + differential correspondence",
+        design="§6 C12"),
     "C18": dict(
         text="Lean theorems about the executable model of parse_units / parse_unitvalue / Units.__str__ / UnitValue.__str__ / "
              "Units.__eq__ (tables and text-pipeline constants regenerated from units.py on every run): print->parse round trip "
@@ -65,11 +76,65 @@ CHECKS = {
              "geometry (S=a^2, d=a, volumes, environments); get_edge symmetric. Tie: translator IndexPy/GeomPy/EngineCpp + exhaustive "
              "correspondence over all small grids (every cell, pair, position) incl. the real engine's neighbour set observed through "
              "Euler steps and the kinetics functions' through derivatives + oracle; grid vs grid_to_graph trajectories / rate law on the real code.",
-        note="Lean kernel + {propext, Classical.choice, Quot.sound}; translator; correspondence harness. Partial: get_neighbors_iff / "
-             "kinetics_enum_iff / engine_nbr_iff (converse directions) and the grid_to_graph edge-multiset theorem are not proved for all "
-             "sizes (exhaustively checked for w,h,d<=3 quick / <=5 thorough); graph_rate_eq_grid_rate needs C01's engine model.",
+        note="Lean kernel + {propext, Classical.choice, Quot.sound}; translator; correspondence harness. get_neighbors_iff, "
+             "kinetics_enum_iff, engine_nbr_iff + engine_nbr_count (multiplicities on periodic axes of length 1 and 2) and "
+             "grid_to_graph_adjacency (soundness, completeness, multiplicity = faceCount) are proved for all sizes against the "
+             "independent Spec faceAdj; open: graph_rate_eq_grid_rate needs C01's engine model (checked on the real code).",
         technique="Lean 4 proof over translator-generated formulas + exhaustive differential correspondence",
         design="§6 C15"),
+    "C19": dict(
+        text="Lean theorems about a line-by-line model of Reaction._fromstring / to_string / ssto / psto / dsto / order / "
+             "k*_units_dimensions / process_unitvar_input / split / equilibrium_constant / RDNetwork._assert_validity: "
+             "parsing a rendered equation (any spacing, any labels allowed by the rules) gives the written coefficients with "
+             "repeats summed; dsto = psto - ssto; order = sum of coefficients; print-parse round trip; k dimension = "
+             "(3n-3, -1, 1-n); bare numbers get it, other dimensions are rejected; split; K = kf/kr in SI; network "
+             "refusals as an iff. Tie: translator group Network (formulas + source constants) + correspondence "
+             "(op reaction / network) + AST oracle on the real code.",
+        note="Lean kernel + {propext, Classical.choice, Quot.sound}; translator; correspondence harness; CPython "
+             "str.split/strip/int/str(int) modelled explicitly (ASCII blanks and digits) and correspondence-tested.",
+        technique="Lean 4 proof over a hand-written parser model + translator-generated formulas + differential correspondence",
+        design="§6 C19"),
+    "C20": dict(
+        text="Lean theorems, one per class of invalid input of the statement, about a model of the package's checks over "
+             "tables regenerated from the sources (alias lists and mandatory keys of every *_from_dict, accepted enumerations "
+             "in Python and in the C++ CompareStr chains, grid size / environment map / index range tests, the dimension "
+             "each quantity field demands, unit symbol lists, coarse-graining map rules): op input = error <-> Invalid input "
+             "(or Invalid -> error), and no_cross_entry from index injectivity. Tie: translator groups Validation / IndexPy / "
+             "Network / Units + correspondence (op validate) + oracle on the real code: valid random nested models x one "
+             "injected fault x every level; exhaustive out-of-range index / triple sweep with state compared before/after.",
+        note="Lean kernel + {propext, Classical.choice, Quot.sound}; translator; correspondence harness; the whole-build "
+             "outcome is attributed to the single injected fault (the unfaulted model is first accepted by the real code).",
+        technique="Lean 4 proof over translator-generated validation tables + fault-injection differential correspondence",
+        design="§6 C20"),
+    "C16": dict(
+        text="Lean theorems on the hand-written model of coarsegrain.py (validity tests, aggregation / spreading subscripts and "
+             "statement inventory regenerated from the source): documented validity rules <-> accepted; volume, species totals, "
+             "environments, chemostat flags of every group; coarse edge <-> groups sharing a face, surface = shared faces x h^2, "
+             "distance^2 = centroid distance^2, no self-loops / duplicates; un-coarse-graining spreads evenly, preserves group "
+             "totals, zero on dropped cells; identity map = grid_to_graph (all proved for all inputs). Tie: translator "
+             "CoarsePy/IndexPy + correspondence (ops coarsegrain, cg_check, uncoarsegrain) + brute-force aggregation oracle on "
+             "the real code (face-sharing pairs, shared-face counts, centroid distances from cell coordinates), identity map "
+             "versus plain simulation on the three rebuilt engines.",
+        note="Lean kernel + {propext, Classical.choice, Quot.sound}; translator; cube / square roots compared to the exact model "
+             "within 1e-9 (distances squared); valid_iff assumes environment indices != -2 (the code's unset marker), cg_chem_any "
+             "assumes flags >= 0; identity map on the stochastic engines: identical for equal draws (same seed only when "
+             "nothing diffuses, the grid and graph engines enumerate neighbours in different orders).",
+        technique="Lean 4 proof over translator-generated formulas + differential correspondence",
+        design="§6 C16"),
+    "C17": dict(
+        text="Lean theorems: point accessor = flat index sample*nspecies*ncells + species*ncells + cell (generated formula); "
+             "per-sample state, per-cell trajectory, whole-state block and merged trajectory of the model (numpy C-order reshape as "
+             "stated model) read the same element / block / sum, with the data's units; species by label / index / object and "
+             "cells by index / coordinates resolve to the same entry; the three sample-index lookups (guards, loop tests and "
+             "returned indices regenerated from rdoutput.py) meet their declarative specs for every non-decreasing time list "
+             "and every query, repeated times included (None exactly when no such sample exists; ties to the earlier index; "
+             "first sample not before t), "
+             "and comparisons in any time unit are comparisons of SI values. Tie: translator IndexPy/TrajPy + correspondence "
+             "(op traj on directly constructed and simulated trajectories, grid and graph) + brute-force oracle on the real code.",
+        note="Lean kernel + {propext, Classical.choice, Quot.sound}; translator; numpy reshape/negative-index semantics are a "
+             "stated model.",
+        technique="Lean 4 proof over translator-generated formulas + differential correspondence",
+        design="§6 C17"),
     "C08": dict(
         text="Lean theorems over the sampler / lifecycle model: iterate_n(a+b) = iterate_n(a); iterate_n(b), run = iterate_n(k) for the k "
              "the wall clock allows, completion absorbs every drive call, any two driving schedules that reach completion give the same "
